@@ -147,6 +147,22 @@ Theorem C20_no_fva_no_range :
 Proof. reflexivity. Qed.
 Print Assumptions C20_no_fva_no_range.
 
+(* ---- a partial fva frame (computed for a reaction_list): a reaction without a row is still listed --
+   the partition and flux theorems above hold for EVERY frame, no coverage is assumed -- with its flux
+   and the range (0, 0) (pandas: the left join gives NaN, `where(|x| >= tol, 0)` turns NaN into 0).   *)
+Theorem C20_missing_fva_row :
+  forall tol f rid mid c v, lookup rid f = None ->
+  let row := scale_row tol (row_range (Some f) rid) rid mid c v in
+  s_rxn row = rid /\ s_flux row = where_ge tol (v * c) /\
+  (exists lo hi, s_range row = Some (lo, hi) /\ lo == 0 /\ hi == 0).
+Proof.
+  intros tol f rid mid c v H row. subst row. unfold row_range, get_range. rewrite H.
+  rewrite scale_row_rxn, scale_row_flux, scale_row_range. repeat split.
+  assert (Z0 : where_ge tol 0 = 0) by (unfold where_ge; destruct (Qle_bool tol (Qabs 0)); reflexivity).
+  rewrite Z0. destruct (Qltb c 0); eexists; eexists; (split; [reflexivity|]); split; ring.
+Qed.
+Print Assumptions C20_missing_fva_row.
+
 (* ---- tie to the source: comparison operators, sign test, scaling and zeroing order as read from
    model_summary.py / metabolite_summary.py on this run.                                          *)
 Theorem C20_source_skeleton :
